@@ -143,8 +143,8 @@ MonReg regGen({"C08GEN", "exploration", "internal: writes the current build's no
 
 MonReg reg({"C08", "exploration",
 			"program pair (reference build = vendored snapshot /verif/ref compiled without sanitizers, current build = /repo working tree). Inputs: a populated instance of each of the 304 "
-			"block types in each of 14 versions inside a planned file (1 seed quick / 6 thorough), synthesised independently by each build through its own reader, plus the real samples; "
-			"every input is first brought into its writer's normal form. Oracle, both directions: the other build loads the file with rc 0, consumes for every block exactly the bytes "
+			"block types in each of 36 versions (14 + 22 Fallout 3 range streams) inside a planned file (1 seed quick / 6 thorough), synthesised independently by each build through its own reader, plus the real samples; "
+			"every input is first brought into its writer's normal form. Oracle, both directions: the other build survives the file (the reference side judges each file in a forked child), loads it with rc 0, consumes for every block exactly the bytes "
 			"the size table declares and reaches the footer, its raw re-save is byte-identical (diffed block by block), and the typed field traces of the two builds for that re-save "
 			"(per block the sequence of kind.size.member-offset of every Sync'ed field, reference and string, from the NIFLY_VERIF hooks) are equal. Catches field order / width / version-gate changes made "
 			"consistently on the read and the write side, which no single-build round trip can see. Non-trivial = file that passed in its direction; distinct by file content.",
